@@ -556,6 +556,14 @@ impl Prioritize {
                     self.reclaim_frame(buffer, store, dst);
                 }
                 None => {
+                    // The stream taken from `pending_open` above may have had
+                    // nothing left to send (it was reset while it waited for a
+                    // slot). Look at the next one instead of stopping while
+                    // streams are waiting for a slot that is free.
+                    if !self.pending_open.is_empty() && counts.can_inc_num_send_streams() {
+                        continue;
+                    }
+
                     return Ok(BufferStatus::Complete);
                 }
             }
